@@ -246,10 +246,10 @@ func c12LruCases(c *Ctx) error {
 		opsJ := make([]string, len(ops))
 		for j, op := range ops {
 			if op.Read {
-				opsC[j] = fmt.Sprintf("ORead %s", lib.CoqZ(int64(op.N)))
+				opsC[j] = fmt.Sprintf("ORead %d", op.N)
 				opsJ[j] = fmt.Sprintf("read %d", op.N)
 			} else {
-				opsC[j] = fmt.Sprintf("OSeek %s %s", lib.CoqZ(op.Off), lib.CoqZ(int64(op.Whence)))
+				opsC[j] = fmt.Sprintf("OSeek %s %d", c12Z(op.Off), op.Whence)
 				opsJ[j] = fmt.Sprintf("seek %d,%d", op.Off, op.Whence)
 			}
 		}
@@ -257,23 +257,23 @@ func c12LruCases(c *Ctx) error {
 		resJ := make([]string, len(results))
 		for j, res := range results {
 			if res.Read {
-				resC[j] = fmt.Sprintf("RRead %s %d%%N", lib.CoqBytes(res.Data), res.St)
+				resC[j] = fmt.Sprintf("ZRead %s %d", c12B(res.Data), res.St)
 				resJ[j] = fmt.Sprintf("%v/%d", res.Data, res.St)
 			} else {
-				resC[j] = fmt.Sprintf("RSeek %s %d%%N", lib.CoqZ(res.Pos), res.St)
+				resC[j] = fmt.Sprintf("ZSeek %s %d", c12Z(res.Pos), res.St)
 				resJ[j] = fmt.Sprintf("@%d/%d", res.Pos, res.St)
 			}
 		}
 		loadsC := make([]string, len(rec.loads))
 		for j, l := range rec.loads {
-			loadsC[j] = lib.CoqZ(l)
+			loadsC[j] = c12Z(l)
 		}
 		evict := len(rec.loads) > entries
 		c.Out.Emit(&lib.Case{Group: "lru", Class: fmt.Sprintf("lru/%s/evict=%v", pat, evict), Nontrivial: evict && len(ops) >= 3,
 			Input:  map[string]interface{}{"chunk": chunk, "entries": entries, "file": c12BytesJ(file), "ops": opsJ, "freshCache": fresh},
 			Obs:    map[string]interface{}{"class": cls, "results": resJ, "loads": rec.loads},
 			Oracle: oracle,
-			Coq: fmt.Sprintf("($ID%%N, %s, %d%%nat, %s, %s, (%d%%N, %s, %s))", lib.CoqZ(int64(chunk)), entries, lib.CoqBytes(file), lib.CoqList(opsC),
+			Coq: fmt.Sprintf("Lru $ID%%N %d %d %s %s %d %s %s", chunk, entries, c12B(file), lib.CoqList(opsC),
 				c12ClassCode[cls], lib.CoqList(resC), lib.CoqList(loadsC))})
 	}
 	return nil
